@@ -123,5 +123,116 @@ func genLifecyclePins(repo string) (string, error) {
 	}
 	s += fmt.Sprintf("Definition ready_waiter : bool := %s.\n", coqBool(waiter))
 	s += "Definition main_waits : list wait := [" + strings.Join(waits, "; ") + "].\n"
+
+	// the order of the go statements of Services.Start
+	var order []string
+	names := map[string]string{"MsgHub": "SHub", "WebServer": "SWeb", "SMTPServer": "SSmtp", "POP3Server": "SPop3", "RetentionScanner": "SRetention"}
+	for _, st := range start.Body.List {
+		gs, ok := st.(*ast.GoStmt)
+		if !ok {
+			continue
+		}
+		if _, ok := gs.Call.Fun.(*ast.FuncLit); ok {
+			order = append(order, "SReadyWaiter")
+			continue
+		}
+		parts := strings.Split(selChain(gs.Call.Fun), ".")
+		if len(parts) == 3 && parts[2] == "Start" && names[parts[1]] != "" {
+			order = append(order, names[parts[1]])
+		} else {
+			order = append(order, "SOther")
+		}
+	}
+	s += "\nInductive startable := SHub | SWeb | SSmtp | SPop3 | SRetention | SReadyWaiter | SOther.\n"
+	s += "Definition start_order : list startable := [" + strings.Join(order, "; ") + "].\n"
+
+	// main(): what follows the signal loop, in order; which branches of the loop cancel before leaving it
+	s += "Inductive mstep := MTimedExit | MWait (w : wait) | MOther.\n"
+	var seq []string
+	after := false
+	var causes []string
+	for _, st := range mainFn.Body.List {
+		if ls, ok := st.(*ast.LabeledStmt); ok && ls.Label.Name == "signalLoop" {
+			after = true
+			// every branch that leaves the loop: does it call svcCancel() first?
+			ast.Inspect(ls, func(n ast.Node) bool {
+				cc, ok := n.(*ast.CaseClause)
+				if ok {
+					cancels, leaves := false, false
+					for _, b := range cc.Body {
+						if es, ok := b.(*ast.ExprStmt); ok {
+							if ce, ok := es.X.(*ast.CallExpr); ok && selChain(ce.Fun) == "svcCancel" {
+								cancels = true
+							}
+						}
+						if bs, ok := b.(*ast.BranchStmt); ok && bs.Label != nil && bs.Label.Name == "signalLoop" {
+							leaves = cancels
+							if !cancels {
+								causes = append(causes, "false")
+							}
+						}
+					}
+					if leaves {
+						causes = append(causes, "true")
+					}
+				}
+				if cm, ok := n.(*ast.CommClause); ok {
+					cancels := false
+					for _, b := range cm.Body {
+						if es, ok := b.(*ast.ExprStmt); ok {
+							if ce, ok := es.X.(*ast.CallExpr); ok && selChain(ce.Fun) == "svcCancel" {
+								cancels = true
+							}
+						}
+						if bs, ok := b.(*ast.BranchStmt); ok && bs.Label != nil && bs.Label.Name == "signalLoop" {
+							causes = append(causes, coqBool(cancels))
+						}
+					}
+				}
+				return true
+			})
+			continue
+		}
+		if !after {
+			continue
+		}
+		switch x := st.(type) {
+		case *ast.GoStmt:
+			if selChain(x.Call.Fun) == "timedExit" {
+				seq = append(seq, "MTimedExit")
+			} else {
+				seq = append(seq, "MOther")
+			}
+		case *ast.ExprStmt:
+			if ce, ok := x.X.(*ast.CallExpr); ok {
+				switch selChain(ce.Fun) {
+				case "services.SMTPServer.Drain":
+					seq = append(seq, "MWait WSmtpDrain")
+				case "services.POP3Server.Drain":
+					seq = append(seq, "MWait WPop3Drain")
+				case "services.RetentionScanner.Join":
+					seq = append(seq, "MWait WRetJoin")
+				}
+			}
+		}
+	}
+	s += "Definition main_after_loop : list mstep := [" + strings.Join(seq, "; ") + "].\n"
+	s += "(* for every branch that leaves the signal loop: does it call svcCancel() first? *)\n"
+	s += "Definition leaving_branches_cancel : list bool := [" + strings.Join(causes, "; ") + "].\n"
+	// timedExit: time.Sleep(N * time.Second)
+	secs := int64(-1)
+	if te := findFunc(mf, "timedExit"); te != nil {
+		ast.Inspect(te, func(n ast.Node) bool {
+			if ce, ok := n.(*ast.CallExpr); ok && selChain(ce.Fun) == "time.Sleep" && len(ce.Args) == 1 {
+				if be, ok := ce.Args[0].(*ast.BinaryExpr); ok {
+					if bl, ok := be.X.(*ast.BasicLit); ok && selChain(be.Y) == "time.Second" {
+						fmt.Sscan(bl.Value, &secs)
+					}
+				}
+			}
+			return true
+		})
+	}
+	s += fmt.Sprintf("Definition timed_exit_seconds : nat := %d%%nat.\n", secs)
 	return s, nil
 }
